@@ -232,9 +232,6 @@ func evalQuery(w *world, rep *vevid.Report, c Case, m *model, q Query, metric st
 			return true
 		}
 		cl := "query-error"
-		if c.losesNamesAtReopen() {
-			cl = "empty-meta-flush-stops-persistence"
-		}
 		viol(cl, ftfn, fmt.Sprintf("query failed: %v; reference expects %d points: %s", qerr, len(exp), renderExp(exp)))
 		rep.Outcome("error")
 		return true
@@ -303,9 +300,9 @@ func evalQuery(w *world, rep *vevid.Report, c Case, m *model, q Query, metric st
 			if clause == "result-differs" && classify(q, sel, it, exp, alts[1], got) != "result-differs" {
 				clause = "write-buffer-end-shrinks"
 			}
-			if c.losesNamesAtReopen() {
-				clause = "empty-meta-flush-stops-persistence"
-			}
+			// (a history in which a metadata flush without new names precedes a new name and a reopen used to lose
+			// that name - repaired in the tree; such a disagreement now is whatever classify says, a regression of the
+			// repair shows as result-differs)
 			viol(clause, ft, strings.Join(bad[it], "; ")+"\nreference: "+renderExp(exp)+"\nlindb:     "+renderGot(got))
 		}
 	}
